@@ -28,6 +28,7 @@ EXPLANATION = (
     "sublist; (CANON implicit-output) the label interface uses the order-of-appearance "
     "routine. "
     "Round 7: (BLANKS, defect F30) the caller's subscripts string is re-bound to a blank-free copy on every path to the splitter; (ELLIPSIS right-aligned) the symbol list an operand's '...' is sliced from does not grow inside the replacing loop. "
+    'Round 8: (BACKEND, shared with C01/C11) the pairwise implementation behind the front end keeps its conventions. '
 )
 ASSUMPTIONS = ("numpy right-aligns the dimensions an ellipsis stands for and puts them first in an "
                "implicit output",)
